@@ -40,7 +40,8 @@ def check(run):
     _stacked(run, prog)
     _svd(run, prog)
     from ..cachekey import check_caches
-    check_caches(run, [m for k, m in prog.modules.items() if k.startswith('cherab.tools.inversions')], 'C11-K', prog=prog)
+    check_caches(run, [m for k, m in prog.modules.items() if k.startswith('cherab.tools.inversions')], 'C11-K', prog=prog,
+                 zero_is_a_value={'cherab.tools.inversions.sart'})   # an initial guess of exactly 0 is a legal seed of the iteration
     _inputs_kept(run, prog)
     run.include('C20', {'cherab/tools/inversions/admt_utils.py'},
                 'the regularisation matrix L of |Wx-b|^2 + alpha^2 |Lx|^2 is built by generate_derivative_operators / calculate_admt')
